@@ -215,8 +215,9 @@ fn c12_one(ti: usize, data: &[u8], extreme: Option<usize>, l: &mut Local) -> Res
     let bytes = no_panic(|| v.bytes()).map_err(|p| fail("max-size", format!("{}: to_allocvec panicked: {}", t.name, p), c()))?;
     let bytes = bytes.map_err(|e| fail("max-size", format!("{}: to_allocvec failed: {:?}", t.name, e), c()))?;
     let sz = no_panic(|| v.size()).map_err(|p| fail("max-size", format!("{}: serialized_size panicked: {}", t.name, p), c()))?;
-    if sz != Ok(bytes.len()) {
-        return Err(fail("max-size", format!("{}: serialized_size {:?} != encoded length {}", t.name, sz, bytes.len()), c()));
+    // (serialized_size is C05's subject; here it is only counted)
+    if sz == Ok(bytes.len()) {
+        l.class("serialized_size-agrees");
     }
     if bytes.len() > max {
         return Err(fail(
@@ -278,7 +279,7 @@ pub fn c12(ctx: &Ctx) {
          16383,16384}), hand-written derive users (in-repo derive and the published derive re-exported by postcard::experimental), \
          127/128/129-variant enums and a generated corpus of random structs/enums using the in-repo derive; values = each type's \
          extremes (every variant; every field at MIN/MAX/4-byte char/full container) + random values from a byte source. oracle: \
-         serialized_size == to_allocvec().len() <= POSTCARD_MAX_SIZE, to_slice into exactly POSTCARD_MAX_SIZE bytes succeeds, and \
+         to_allocvec().len() <= POSTCARD_MAX_SIZE, to_slice into exactly POSTCARD_MAX_SIZE bytes succeeds, and \
          for the kinds the statement lists max over extremes == POSTCARD_MAX_SIZE. non-trivial = value within 1 byte of the declared \
          maximum; distinct = hash(type, bytes)",
     );
